@@ -426,6 +426,13 @@ fn monitor(mon: Arc<Mon>, pool: AsyncifyPool, ctx: Arc<Ctx>) {
             continue;
         }
         let gate_closed = !*ctx.gate.lock().unwrap();
+        let running = ctx.running.load(Ordering::SeqCst);
+        if gate_closed && workers > running {
+            // a worker thread exists that is not inside a job yet (still
+            // starting, or idle): it will take the hand-off / let the
+            // spawning caller go — not stuck
+            continue;
+        }
         if gate_closed {
             // The callers wait for a worker, the workers wait for the
             // harness' gate, the gate waits for the callers: the harness' own
@@ -434,7 +441,7 @@ fn monitor(mon: Arc<Mon>, pool: AsyncifyPool, ctx: Arc<Ctx>) {
             mon.forced_gate.fetch_add(1, Ordering::SeqCst);
             ctx.set_gate(true);
             strikes = 0;
-        } else if workers == 0 && ctx.running.load(Ordering::SeqCst) == 0 {
+        } else if workers == 0 && running == 0 && strikes >= 8 {
             // Nothing can change this state any more: the only threads are
             // sleeping callers (and main waiting for them). Record and rescue:
             // one more dispatch spawns a worker, which then also takes the
